@@ -184,7 +184,11 @@ def run_job(contract, cfg, tier, budget_s):
     obl = res["obligations"]
     for vc in vcs:
         is_canary = vc.name.endswith('/canary')
-        st_, backend, dt, model = SV.discharge(vc.pc, vc.goal, b, use_cli=not is_canary, tactic=contract.tactic)
+        if z3.is_true(vc.goal) and not is_canary:
+            # the clause was decided by evaluation on concrete structure (finite-universe / [E] obligations)
+            st_, backend, dt, model = 'unsat', 'evaluation', 0.0, None
+        else:
+            st_, backend, dt, model = SV.discharge(vc.pc, vc.goal, b, use_cli=not is_canary, tactic=contract.tactic)
         res["solver_s"] += dt
         o = obl.setdefault(vc.name, {"vcs": 0, "unsat": 0, "sat": 0, "unknown": 0, "backends": {}, "max_s": 0.0,
                                      "canary": is_canary})
